@@ -5,9 +5,10 @@
    on disk by the independent decoder, plus the library's own layout reports. *)
 EXTENDS File, Json, IOUtils
 
-VARIABLES l, shaRedef     \* position in the trace; digest of the file when define mode was re-entered
+VARIABLES l, shaRedef,    \* position in the trace; digest of the file when define mode was re-entered
+          shaOther        \* digest of the second open file (source / destination of cross-file copies) when it was set up
 Tr == ndJsonDeserialize(IOEnv.TRACE)
-tvars == <<vars_, l, shaRedef>>
+tvars == <<vars_, l, shaRedef, shaOther>>
 Chk(name, c) == IF c THEN TRUE ELSE (PrintT(<<"FAILED", name, l>>) /\ FALSE)
 Same(a, b) == ToString(a) = ToString(b)
 
@@ -115,13 +116,23 @@ TReset ==
     /\ Tr[l].e \in {"Reset", "Header"}
     /\ dims' = <<>> /\ gatts' = <<>> /\ vars' = <<>> /\ numrecs' = 0 /\ mode' = "closed" /\ fresh' = FALSE
     /\ fillmode' = "NOFILL" /\ fmt' = 1 /\ saved' = NoSave /\ exists' = FALSE /\ hist' = <<>>
-    /\ shaRedef' = "none" /\ l' = l + 1
+    /\ shaRedef' = "none" /\ shaOther' = "none" /\ l' = l + 1
+
+(* calls on the SECOND file of an execution (set up as source / destination of cross-file attribute copies): they must
+   succeed and do not concern the model; the step marked other_mark records that file's digest *)
+IsOther(ev) == "other" \in DOMAIN ev.a
+TOtherFile ==
+    /\ Tr[l].e \notin {"Reset", "Header"} /\ IsOther(Tr[l])
+    /\ Chk("other.rc", Tr[l].rc = "NC_NOERR")
+    /\ UNCHANGED <<vars_, shaRedef>>
+    /\ shaOther' = IF "other_mark" \in DOMAIN Tr[l].a THEN Tr[l].obs.sha_other ELSE shaOther
+    /\ l' = l + 1
 
 TCreate ==
-    /\ Tr[l].e = "create" /\ Tr[l].rc = "NC_NOERR"
+    /\ Tr[l].e = "create" /\ ~IsOther(Tr[l]) /\ Tr[l].rc = "NC_NOERR"
     /\ dims' = <<>> /\ gatts' = <<>> /\ vars' = <<>> /\ numrecs' = 0 /\ mode' = "def" /\ fresh' = TRUE
     /\ fillmode' = "NOFILL" /\ fmt' = Tr[l].a.fmtno /\ saved' = NoSave /\ exists' = TRUE /\ hist' = <<>>
-    /\ shaRedef' = "none" /\ l' = l + 1
+    /\ shaRedef' = "none" /\ UNCHANGED shaOther /\ l' = l + 1
 
 (* C04: a file that some other writer produced: the content the encoder put in is the state of the model *)
 TLoad ==
@@ -129,10 +140,10 @@ TLoad ==
     /\ LET s == Tr[l].a.st IN
          /\ dims' = s.dims /\ gatts' = s.gatts /\ vars' = s.vars /\ numrecs' = s.numrecs /\ fmt' = s.fmt
     /\ mode' = "closed" /\ fresh' = FALSE /\ fillmode' = "NOFILL" /\ saved' = NoSave /\ exists' = TRUE /\ hist' = <<>>
-    /\ shaRedef' = "none" /\ l' = l + 1
+    /\ shaRedef' = "none" /\ shaOther' = "none" /\ l' = l + 1
 
 TOp ==
-    /\ Tr[l].e \notin {"Reset", "Header", "create", "load"}
+    /\ Tr[l].e \notin {"Reset", "Header", "create", "load"} /\ ~IsOther(Tr[l])
     /\ LET ev == Tr[l]  a == ev.a  rc == ev.rc IN
          /\ CASE ev.e = "def_dim"      -> DefDim(a.norm, a.len, rc)
               [] ev.e = "def_var"      -> DefVar(a.norm, a.xtype, a.dims, rc)
@@ -141,7 +152,10 @@ TOp ==
               [] ev.e = "rename_att"   -> RenameAtt(a.v, a.norm, a.norm_new, a.oldlen, a.newlen, rc)
               [] ev.e = "rename_var"   -> RenameVar(a.v, a.norm_new, a.oldlen, a.newlen, rc)
               [] ev.e = "rename_dim"   -> RenameDim(a.d, a.norm_new, a.oldlen, a.newlen, rc)
-              [] ev.e = "copy_att"     -> CopyAtt(a.v, a.norm, a.v2, rc)
+              [] ev.e = "copy_att"     -> IF "src" \in DOMAIN a THEN CopyAttFrom(AttOf(a.src), a.v2, rc)
+                                          ELSE IF "to_other" \in DOMAIN a THEN CopyAttTo(a.v, a.norm, rc)
+                                          ELSE CopyAtt(a.v, a.norm, a.v2, rc)
+              [] ev.e = "noop"         -> Stutter("noop") /\ rc = "NC_NOERR"
               [] ev.e = "set_fill"     -> SetFill(a.fill, rc) /\ (rc = "NC_NOERR" => ev.out.old = fillmode)
               [] ev.e = "def_var_fill" -> DefVarFill(a.v, a.nofill = 1, rc)
               [] ev.e \in {"enddef", "_enddef"} -> Enddef(rc)
@@ -162,10 +176,14 @@ TOp ==
          \* C06: an aborted redefinition leaves the file byte-for-byte as it was
          /\ shaRedef' = IF ev.e = "redef" /\ rc = "NC_NOERR" /\ "sha" \in DOMAIN ev.obs THEN ev.obs.sha ELSE shaRedef
          /\ (ev.e = "abort" /\ saved.on /\ "sha" \in DOMAIN ev.obs) => Chk("abort.bytes", ev.obs.sha = shaRedef)
+         \* a copy INTO this file leaves the other file byte-for-byte as it was
+         /\ UNCHANGED shaOther
+         /\ ("sha_other" \in DOMAIN ev.obs /\ "other_must_stay" \in DOMAIN a) =>
+                Chk("other.file.unchanged", ev.obs.sha_other = shaOther)
     /\ l' = l + 1
 
-TNext == l <= Len(Tr) /\ (TReset \/ TCreate \/ TLoad \/ TOp)
-TInit == l = 1 /\ shaRedef = "none" /\ dims = <<>> /\ gatts = <<>> /\ vars = <<>> /\ numrecs = 0 /\ mode = "closed"
+TNext == l <= Len(Tr) /\ (TReset \/ TCreate \/ TLoad \/ TOtherFile \/ TOp)
+TInit == l = 1 /\ shaRedef = "none" /\ shaOther = "none" /\ dims = <<>> /\ gatts = <<>> /\ vars = <<>> /\ numrecs = 0 /\ mode = "closed"
          /\ fresh = FALSE /\ fillmode = "NOFILL" /\ fmt = 1 /\ saved = NoSave /\ exists = FALSE /\ hist = <<>>
 TraceSpec == TInit /\ [][TNext]_tvars
 TraceAccepted ==
